@@ -47,7 +47,7 @@ ASSUMPTIONS = [
     "(after the documented clean-up), or positionally under rename",
 ]
 
-ALPHABET = ["a.b", "a_b", "0", "1x", "if", "class", "r_if", "opset18", "alpha", "v1", "x", "alpha_0", "alpha_1"]
+ALPHABET = ["a.b", "a_b", "0", "1x", "if", "class", "r_if", "opset18", "alpha", "v1", "x", "alpha_0", "alpha_1", "alpha.0"]
 OPTION_NAMES = ("rename", "use_operators", "inline_const", "skip_initializers")
 ALL_OPTS = [list(bits) for bits in itertools.product([0, 1], repeat=4)]
 RUN_TIMEOUT_S = 10.0   # a round-tripped while-loop may never terminate (seen: names colliding after clean-up)
